@@ -9,6 +9,7 @@ From Coq Require Import ZArith QArith Qabs Qround List Bool Lia Arith Permutatio
 From PV Require Import lib.Cases C19_Model.
 Import ListNotations.
 Local Open Scope Z_scope.
+Local Arguments Qred : simpl never.
 
 (* ====================================================================================== *)
 (* Part 1 — helpers                                                                        *)
@@ -540,7 +541,7 @@ Proof.
   intros Hq Hn H. unfold vdiv in *. rewrite (Qneq_eq_bool q Hq) in H. rewrite (Qneq_eq_bool n Hn).
   assert (Hqn : ~ (q * n == 0)%Q) by (intros E; apply Qmult_integral in E; tauto).
   rewrite (Qneq_eq_bool _ Hqn).
-  destruct x as [x|], r as [r|]; cbn in *; try tauto. rewrite H. field. auto.
+  destruct x as [x|], r as [r|]; cbn in *; try tauto. rewrite ?Qred_correct in *. rewrite H. field. auto.
 Qed.
 Lemma ediv_step q n x r :
   ~ (q == 0)%Q -> ~ (n == 0)%Q ->
@@ -549,7 +550,7 @@ Proof.
   intros Hq Hn H. unfold ediv in *. rewrite (Qneq_eq_bool q Hq) in H. rewrite (Qneq_eq_bool n Hn).
   assert (Hqn : ~ (q * n == 0)%Q) by (intros E; apply Qmult_integral in E; tauto).
   rewrite (Qneq_eq_bool _ Hqn).
-  destruct x as [[c v]|], r as [[c' v']|]; cbn in *; try tauto. destruct H as [H1 H2].
+  destruct x as [[c v]|], r as [[c' v']|]; cbn in *; try tauto. destruct H as [H1 H2]. rewrite ?Qred_correct in *. 
   split; [rewrite H1; field; auto|exact H2].
 Qed.
 (* x ~ r/q, nv ~ q  ==>  x*nv ~ r/1 *)
@@ -559,7 +560,7 @@ Lemma vmul_back q nv0 x r :
 Proof.
   intros Hq Hnv H. unfold vdiv, vmul in *. rewrite (Qneq_eq_bool q Hq) in H.
   destruct nv0 as [n|]; [|contradiction]. cbn in Hnv.
-  destruct x as [x|], r as [r|]; cbn in *; try tauto. rewrite H, Hnv. field. auto.
+  destruct x as [x|], r as [r|]; cbn in *; try tauto. rewrite ?Qred_correct in *. rewrite H, Hnv. field. auto.
 Qed.
 Lemma emul_back q nv0 x r :
   ~ (q == 0)%Q -> veq nv0 (Some q) ->
@@ -567,19 +568,19 @@ Lemma emul_back q nv0 x r :
 Proof.
   intros Hq Hnv H. unfold ediv, emul in *. rewrite (Qneq_eq_bool q Hq) in H.
   destruct nv0 as [n|]; [|contradiction]. cbn in Hnv.
-  destruct x as [[c v]|], r as [[c' v']|]; cbn in *; try tauto. destruct H as [H1 H2].
+  destruct x as [[c v]|], r as [[c' v']|]; cbn in *; try tauto. destruct H as [H1 H2]. rewrite ?Qred_correct in *. 
   split; [rewrite H1, Hnv; field; auto|exact H2].
 Qed.
 Lemma vdiv_one r : veq r (vdiv (Some 1%Q) r).
-Proof. destruct r as [r|]; cbn; auto. field. Qed.
+Proof. destruct r as [r|]; cbn; auto. rewrite Qred_correct. field. Qed.
 Lemma ediv_one r : eeq r (ediv (Some 1%Q) r).
-Proof. destruct r as [[c v]|]; cbn; auto. split; [field|reflexivity]. Qed.
+Proof. destruct r as [[c v]|]; cbn; auto. rewrite Qred_correct. split; [field|reflexivity]. Qed.
 
 Lemma vdiv_cong n q r : ~ (q == 0)%Q -> veq n (Some q) -> veq (vdiv n r) (vdiv (Some q) r).
 Proof.
   intros Hq Hn. destruct n as [n|]; [|contradiction]. cbn in Hn. unfold vdiv.
   assert (Hn0 : ~ (n == 0)%Q) by (rewrite Hn; exact Hq).
-  rewrite (Qneq_eq_bool n Hn0), (Qneq_eq_bool q Hq). destruct r as [r|]; cbn; auto. rewrite Hn. reflexivity.
+  rewrite (Qneq_eq_bool n Hn0), (Qneq_eq_bool q Hq). destruct r as [r|]; cbn; auto. rewrite !Qred_correct, Hn. reflexivity.
 Qed.
 
 Section MachineProofs.
@@ -653,7 +654,7 @@ Proof.
   apply (scaled_rescale q (q * n0)%Q); auto.
   - intros E'. apply Qmult_integral in E'. tauto.
   - change (nv (cache_p raw_p st)) with (nv st). destruct (nv st) as [x|]; cbn in *; [|contradiction].
-    rewrite Hnv. reflexivity.
+    rewrite Qred_correct, Hnv. reflexivity.
   - intros x y. apply vdiv_step; auto.
   - intros x y. apply ediv_step; auto.
 Qed.
@@ -781,10 +782,10 @@ Proof.
 Qed.
 
 Lemma vdiv_one_inv x r : veq x (vdiv (Some 1%Q) r) -> veq x r.
-Proof. destruct x as [x|], r as [r|]; cbn; auto. intros ->. field. Qed.
+Proof. destruct x as [x|], r as [r|]; cbn; auto. intros ->. rewrite Qred_correct. field. Qed.
 Lemma ediv_one_inv x r : eeq x (ediv (Some 1%Q) r) -> eeq x r.
 Proof.
-  destruct x as [[c v]|], r as [[c' v']|]; cbn; auto. intros [-> ->]. split; [field|reflexivity].
+  destruct x as [[c v]|], r as [[c' v']|]; cbn; auto. intros [-> ->]. rewrite Qred_correct. split; [field|reflexivity].
 Qed.
 
 Lemma read_fresh st a : scaled 1%Q st -> obs_eq (snd (STEP (ORead a) st)) (fresh a).
